@@ -117,6 +117,17 @@ VARIANTS = [
      "new": "                    injected = eq_manager.take_injected_events()\n"
             "                    if old_events:\n"
             "                        new_events.extend(injected)\n"},
+    {"name": "R2 queue drained before the fallible filter loop", "expect": "C17.R2",
+     "edits": [
+         {"file": HEM, "old": _FILTER,
+          "new": "                    pending = cap_data.region().eq_manager.take_injected_events()\n" + _FILTER},
+         {"file": HEM, "old": _MERGE, "new": "                    new_events.extend(pending)\n"},
+     ]},
+    {"name": "P R2 only logging between draining and merging", "file": HEM, "expect": "silent",
+     "old": _MERGE,
+     "new": "                    pending = eq_manager.take_injected_events()\n"
+            "                    LOG.debug(\"Merging %d injected events\", len(pending))\n"
+            "                    new_events.extend(pending)\n"},
     {"name": "P R2 copy-and-clear form of take_injected_events", "file": REG, "expect": "silent",
      "old": _TAKE, "new": "        events = list(self._queued_events)\n        self._queued_events.clear()\n"},
     {"name": "P R2 merge through a local and +=", "file": HEM, "expect": "silent",
@@ -173,6 +184,16 @@ VARIANTS = [
     {"name": "R4 regions grown outside register_region", "file": SESS, "expect": "C17.R4",
      "old": "        AddonManager.handle_region_registered(self, region)\n",
      "new": "        self.regions.append(region)\n        AddonManager.handle_region_registered(self, region)\n"},
+    {"name": "R4 address match only counts for regions with a circuit", "file": STATE, "expect": "C17.R4",
+     "old": "            if region.circuit_addr == circuit_addr:\n                if seed_url and",
+     "new": "            if region.circuit_addr == circuit_addr and region.circuit:\n                if seed_url and"},
+    {"name": "R4 handle-less regions skipped by the search", "file": STATE, "expect": "C17.R4",
+     "old": "            if region.circuit_addr == circuit_addr:\n                if seed_url and",
+     "new": "            if not region.handle:\n                continue\n"
+            "            if region.circuit_addr == circuit_addr:\n                if seed_url and"},
+    {"name": "P R4 address comparison hoisted into a local", "file": STATE, "expect": "silent",
+     "old": "            if region.circuit_addr == circuit_addr:\n                if seed_url and",
+     "new": "            same_sim = region.circuit_addr == circuit_addr\n            if same_sim:\n                if seed_url and"},
     {"name": "P R4 early-exit form of the registration guard", "file": HEM, "expect": "silent",
      "old": _REGISTER_TAIL,
      "new": "        if sim_addr is None:\n            return False\n"
